@@ -910,6 +910,120 @@ example :
     c.blocks.map (·.dyn.out) = [.int 0, .str "saved"] ∧ c.store.get? "<Input 'dst'>" = some (.val (.str "saved")) := by
   decide +kernel
 
+/-! ### nested events: chained transitions requested by entry actions
+
+`AddonPersistence.event` is the outermost `event()` of a persistent block, so the `self.event(…)` with which an FSM
+entry action requests a chained transition re-enters it in the MIDDLE of the outer transition (finding
+C06-nested-event-saves-intermediate-state: the unrepaired wrapper saved there).  `Circ.eventN` / `Circ.fireN` - what
+the driver executes for every event and timer firing - run every wrapper call the event contains (`blockMids`: the
+block's state when each nested call returned) and log the storage after every write: the crash points inside an
+event. -/
+
+/-- `nested_event_never_saves`: a call of the wrapper made while another `event()` of the block is active writes
+    nothing, whatever state the block is in and however many such calls an event contains; the circuit and result
+    of an event with all its nested calls are those of `Circ.event`; and a save happens only when the OUTERMOST
+    `event()` of the block returns: an event writes at most once, the write is the last thing it does (the storage
+    it leaves is the final one) and the event was handled without error - an event that raises writes nothing -/
+theorem nested_event_never_saves (c : Circ) (cal : Val → Option Bool) (i : Nat) (ev : Ev) :
+    (∀ (s : Storage) (b : Blk), wrapperSave true s b = (s, false) ∧ syncSaveN true s b = s) ∧
+    (∀ (s : Storage) (b : Blk) (mids : List Dyn) (log : List Storage), nestedSaves b mids s log = (s, log)) ∧
+    (c.eventN cal i ev).map (fun x => (x.1, x.2.1)) = c.event cal i ev ∧
+    (c.fireN cal i).map (fun x => (x.1, x.2.1)) = c.fire cal i ∧
+    (∀ c' r ws, c.eventN cal i ev = some (c', r, ws) →
+      (ws = [] ∧ c'.store = c.store) ∨ (∃ v, r = .ret v ∧ ws = [c'.store])) :=
+  ⟨fun s b => ⟨wrapperSave_nested s b, rfl⟩, fun s b mids log => nestedSaves_eq b mids s log,
+   eventN_is_event c cal i ev, fireN_is_fire c cal i, fun _ _ _ h => eventN_writes h⟩
+
+/-- `storage_never_holds_intermediate_state`: for every circuit, initial storage and history (events, chained
+    transitions, failing entry actions, timer firings), at EVERY write made while the next event is handled the
+    storage holds, for every block with `persistent and sync_state` (the block handling the event included), the
+    block's state after that completed event - never a state the block only passes through - and a write is made
+    only by an event that was handled without error; an event that fails leaves the storage as it was after the
+    last completed event -/
+theorem storage_never_holds_intermediate_state (env : Time → Val → Option Bool) (c0 : Circ) (h0 : Fresh c0)
+    (now : Time) (ops : List Op) (cal : Val → Option Bool) (i : Nat) (ev : Ev) (c' : Circ) (r : Res)
+    (ws : List Storage)
+    (h : (run env (c0.start (env now) now .ok) ops).eventN cal i ev = some (c', r, ws)) :
+    (∀ s ∈ ws, (∃ v, r = .ret v) ∧
+      ((c'.phase = .running ∨ c'.phase = .aborted) →
+        ∀ b ∈ c'.blocks, b.persistent = true → b.sync = true → s.get? b.key = getState b.kind b.dyn)) ∧
+    ((∀ v, r ≠ .ret v) → ws = [] ∧ c'.store = (run env (c0.start (env now) now .ok) ops).store) := by
+  have hi := inv_run env ops (h0.inv (env now) now .ok)
+  generalize run env (c0.start (env now) now .ok) ops = c at hi h
+  have hi' : Inv c' := inv_event hi (eventN_event h)
+  rcases eventN_writes h with ⟨rfl, hs⟩ | ⟨v, rfl, rfl⟩
+  · exact ⟨fun s hs => by simp at hs, fun _ => ⟨rfl, hs⟩⟩
+  · refine ⟨fun s hs => ?_, fun hne => absurd rfl (hne v)⟩
+    simp only [List.mem_singleton] at hs
+    subst hs
+    exact ⟨⟨v, rfl⟩, fun hg => hi'.synced (hg.elim Or.inl (fun h => Or.inr (Or.inl h)))⟩
+
+/-- the same for a timer firing -/
+theorem storage_never_holds_intermediate_state_fire (env : Time → Val → Option Bool) (c0 : Circ) (h0 : Fresh c0)
+    (now : Time) (ops : List Op) (cal : Val → Option Bool) (i : Nat) (c' : Circ) (r : Res) (ws : List Storage)
+    (h : (run env (c0.start (env now) now .ok) ops).fireN cal i = some (c', r, ws)) :
+    ∀ s ∈ ws, (∃ v, r = .ret v) ∧ s = c'.store ∧
+      ((c'.phase = .running ∨ c'.phase = .aborted) →
+        ∀ b ∈ c'.blocks, b.persistent = true → b.sync = true → s.get? b.key = getState b.kind b.dyn) := by
+  have hi := inv_run env ops (h0.inv (env now) now .ok)
+  generalize run env (c0.start (env now) now .ok) ops = c at hi h
+  have hf : c.fire cal i = some (c', r) := by rw [← fireN_is_fire, h]; rfl
+  have hi' : Inv c' := inv_fire hi hf
+  unfold Circ.fireN at h
+  split at h
+  · simp at h
+  · split at h
+    · simp at h
+    · split at h
+      · simp at h
+      · split at h
+        · simp at h
+        · rcases eventN_writes h with ⟨rfl, _⟩ | ⟨v, rfl, rfl⟩
+          · intro s hs; simp at hs
+          · intro s hs
+            simp only [List.mem_singleton] at hs
+            subst hs
+            exact ⟨⟨v, rfl⟩, rfl, fun hg => hi'.synced (hg.elim Or.inl (fun h => Or.inr (Or.inl h)))⟩
+
+/-- the FSM of the finding: `go: A → X`, `next: X → Y`, `enter_X` requests `next` with an event to its own block;
+    `yFails`: `enter_Y` raises -/
+def exChainCls (yFails : Bool) : FsmCls :=
+  { states := ["A", "X", "Y"], trans := [("go", some "A", "X"), ("next", some "X", "Y"), ("back", none, "A")],
+    timers := [("Y", some 1000000, .ev "back")], conds := [],
+    enters := [("X", .chain "next")] ++ (if yFails then [("Y", .raise)] else []),
+    outMode := .state, initState := "A", initSdata := [] }
+
+def exChain (yFails : Bool) : Circ :=
+  { blocks := [{ key := "<Chain 'f'>", kind := .fsm (exChainCls yFails), persistent := true, sync := true,
+                 expiration := none }],
+    store := [] }
+
+/-- the hypotheses are satisfiable, and the statement is not empty: the chained transition `A → X → Y` contains one
+    nested call of the wrapper, made in the intermediate state `X`; the event writes once, `Y` with its timer -/
+example :
+    Fresh (exChain false) ∧
+    (blockMids (.fsm (exChainCls false)) 5 (((exChain false).start (fun _ => none) 0 .ok).blocks.map (·.dyn)).head!
+      (.named "go" none)).map (·.fstate) = ["X"] ∧
+    (((exChain false).start (fun _ => none) 0 .ok).eventN (fun _ => none) 0 (.named "go" none)).map
+      (fun x => (x.2.1, x.2.2.map (·.get? "<Chain 'f'>"), x.1.blocks.map (·.dyn.entered)))
+      = some (.ret (.bool true), [some (.fsm "Y" (some 1000000) [])], [["A", "X", "Y"]]) := by
+  refine ⟨⟨⟨rfl, by decide +kernel, by decide +kernel, ?_, ?_, ?_⟩, ?_⟩, by decide +kernel, by decide +kernel⟩
+  all_goals
+    intro b hb
+    simp only [exChain, List.mem_cons, List.not_mem_nil, or_false] at hb
+    subst hb
+  · show (exChainCls false).valid = true; decide +kernel
+  · rfl
+  · exact ⟨rfl, rfl⟩
+  · rfl
+
+/-- …and when `enter_Y` fails nothing is written: the storage keeps `A`, the state after the last completed event -/
+example :
+    (((exChain true).start (fun _ => none) 0 .ok).eventN (fun _ => none) 0 (.named "go" none)).map
+      (fun x => (x.2.1, x.2.2.length, x.1.store.get? "<Chain 'f'>", x.1.blocks.map (·.dyn.fstate)))
+      = some (.handlerError, 0, some (.fsm "A" none []), ["Y"]) := by
+  decide +kernel
+
 end Edzed.Persist
 
 /-! ### the translation tie: the decision of `init_from_persistent_data` -/
@@ -1009,50 +1123,95 @@ def runEvent (f : Faults) (b : Blk) : List Prim → WSt → WSt
   | _ :: r, s => runEvent f b r s
 
 /-- (a) success path on a storage with faults `f`: after `super().event` returned, the wrapper saves exactly when
-    `persistent ∧ sync_state ∧ is_initialized()` (the repair 85849b6); the storage afterwards is the model's
-    `saveBlkF`, and an exception leaves `event()` iff that save lets one out -/
-theorem translated_persist_event_success_is_model (f : Faults) (s : Storage) (b : Blk) (ready : Bool) :
-    runEvent f b (eventActs false b.persistent ready b.sync b.dyn.inited (saveBlkF f s b).2) ⟨b.persistent, s, false⟩
-      = (if b.persistent && b.sync && b.dyn.inited then ⟨b.persistent, (saveBlkF f s b).1, (saveBlkF f s b).2⟩
+    it is the OUTERMOST `event()` of the block (`nested` = the flag `_persist_event_active` at entry; the repair
+    patches/C06-nested-event-saves-intermediate-state.diff) and `persistent ∧ sync_state ∧ is_initialized()` (the
+    repair 85849b6); the storage afterwards is the model's `saveBlkF`, and an exception leaves `event()` iff that
+    save lets one out -/
+theorem translated_persist_event_success_is_model (f : Faults) (s : Storage) (b : Blk) (ready nested : Bool) :
+    runEvent f b (eventActs false b.persistent ready b.sync b.dyn.inited (saveBlkF f s b).2 nested)
+        ⟨b.persistent, s, false⟩
+      = (if !nested && b.persistent && b.sync && b.dyn.inited
+         then ⟨b.persistent, (saveBlkF f s b).1, (saveBlkF f s b).2⟩
          else ⟨b.persistent, s, false⟩) := by
   have hsave := translated_persist_save_is_model f s b
   unfold eventActs
-  cases hp : b.persistent <;> cases hs : b.sync <;> cases hi : b.dyn.inited <;>
+  cases nested <;> cases hp : b.persistent <;> cases hs : b.sync <;> cases hi : b.dyn.inited <;>
     cases hx : (saveBlkF f s b).2 <;> simp_all [runEvent]
 
-/-- …on a working storage that is the model's `syncSave`, and the handler's result is returned -/
-theorem translated_persist_event_success_without_faults (s : Storage) (b : Blk) (ready : Bool) :
-    runEvent {} b (eventActs false b.persistent ready b.sync b.dyn.inited false) ⟨b.persistent, s, false⟩
-      = ⟨b.persistent, syncSave s b, false⟩ ∧
-    (eventActs false b.persistent ready b.sync b.dyn.inited false).head? = some .superEvent ∧
-    (eventActs false b.persistent ready b.sync b.dyn.inited false).getLast? = some .ret := by
-  have h := translated_persist_event_success_is_model {} s b ready
+/-- …on a working storage that is the model's `syncSaveN` (the outermost call: `syncSave`), and the handler's
+    result is returned -/
+theorem translated_persist_event_success_without_faults (s : Storage) (b : Blk) (ready nested : Bool) :
+    runEvent {} b (eventActs false b.persistent ready b.sync b.dyn.inited false nested) ⟨b.persistent, s, false⟩
+      = ⟨b.persistent, syncSaveN nested s b, false⟩ ∧
+    (eventActs false b.persistent ready b.sync b.dyn.inited false nested).head? = some .enter ∧
+    (eventActs false b.persistent ready b.sync b.dyn.inited false nested).getLast? = some .ret := by
+  have h := translated_persist_event_success_is_model {} s b ready nested
   rw [saveBlkF_nofault] at h
   refine ⟨?_, ?_, ?_⟩
-  · rw [h]; unfold syncSave; split <;> rfl
+  · rw [h]; unfold syncSaveN syncSave; cases nested <;> simp <;> split <;> rfl
   · unfold eventActs; simp
-  · unfold eventActs; cases b.persistent <;> cases b.sync <;> cases b.dyn.inited <;> simp
+  · unfold eventActs; cases nested <;> cases b.persistent <;> cases b.sync <;> cases b.dyn.inited <;> simp
 
 /-- (a) exception path: nothing is saved, persistence is switched off iff the block is persistent and the
     circuit is not ready (`persistent := persistent ∧ ready`, the model's rule), the exception is re-raised -/
 theorem translated_persist_event_failure_is_model (f : Faults) (s : Storage) (b : Blk)
-    (p ready sy ini sr : Bool) :
-    runEvent f b (eventActs true p ready sy ini sr) ⟨p, s, false⟩ = ⟨p && ready, s, false⟩ ∧
-    (eventActs true p ready sy ini sr).getLast? = some .reraise := by
+    (p ready sy ini sr nested : Bool) :
+    runEvent f b (eventActs true p ready sy ini sr nested) ⟨p, s, false⟩ = ⟨p && ready, s, false⟩ ∧
+    (eventActs true p ready sy ini sr nested).getLast? = some .reraise := by
   unfold eventActs
   cases p <;> cases ready <;> simp [runEvent]
+
+/-- the flag `_persist_event_active` along the action list: `enter` sets it, `leave` puts the entry value back -/
+def runFlag (nested : Bool) : List Prim → Bool → Bool
+  | [], a => a
+  | .enter :: r, _ => runFlag nested r true
+  | .leave :: r, _ => runFlag nested r nested
+  | _ :: r, a => runFlag nested r a
+
+/-- is the flag set whenever `super().event` is called (attempted)? -/
+def flagAtSuper (nested : Bool) : List Prim → Bool → Option Bool
+  | [], _ => none
+  | .enter :: r, _ => flagAtSuper nested r true
+  | .leave :: r, _ => flagAtSuper nested r nested
+  | .superEvent :: _, a => some a
+  | .fails .superEvent :: _, a => some a
+  | _ :: r, a => flagAtSuper nested r a
+
+/-- the nesting flag is sound: on every path (handler returned or raised, save done, failed or skipped) the flag
+    is set while `super().event` runs - so an `event()` the handler sends to its own block finds `nested = True` -
+    and has its entry value again when `event()` is left; a block no `event()` has entered yet has it cleared (the
+    class attribute).  Hence `nested` is true exactly in the calls made while another `event()` of the block is
+    active, whatever `_enable_event` does to `_event_active`. -/
+theorem translated_persist_event_flag_is_balanced (sr p ready sy ini svr nested : Bool) :
+    runFlag nested (eventActs sr p ready sy ini svr nested) nested = nested ∧
+    flagAtSuper nested (eventActs sr p ready sy ini svr nested) nested = some true ∧
+    eventFlagDefault = false := by
+  unfold eventActs eventFlagDefault
+  cases sr <;> cases p <;> cases ready <;> cases sy <;> cases ini <;> cases svr <;> cases nested <;>
+    simp [runFlag, flagAtSuper]
+
+/-- `nested_event_never_saves` at the level of the translated code: a nested call of the wrapper contains no
+    `save` action at all, whatever the handler, the flags and the storage do; the storage stays as it was -/
+theorem translated_persist_nested_event_never_saves (f : Faults) (b : Blk) (sr p ready sy ini svr : Bool)
+    (w : WSt) :
+    (eventActs sr p ready sy ini svr true).all (fun a => match a with
+      | .save => false | .fails .save => false | _ => true) = true ∧
+    (runEvent f b (eventActs sr p ready sy ini svr true) w).store = w.store := by
+  unfold eventActs
+  cases sr <;> cases p <;> cases ready <;> cases sy <;> cases ini <;> cases svr <;> simp [runEvent]
 
 /-- (a) the model's wrapper on a failing storage (`resave`, used by `Circ.eventF` / `Circ.fireF`) IS the
     translated wrapper: same storage, and `saveError` exactly when an exception leaves the translated `event()` -/
 theorem translated_persist_event_on_failing_storage_is_model (c c' : Circ) (f : Faults) (i : Nat) (v : Val)
     (b' : Blk) (hb' : c'.blocks[i]? = some b') (ready : Bool) :
     resave c c' f i v =
-      (let w := runEvent f b' (eventActs false b'.persistent ready b'.sync b'.dyn.inited (saveBlkF f c.store b').2)
+      (let w := runEvent f b' (eventActs false b'.persistent ready b'.sync b'.dyn.inited (saveBlkF f c.store b').2 false)
         ⟨b'.persistent, c.store, false⟩
        if b'.persistent && b'.sync && b'.dyn.inited then
          ({ c' with store := w.store }, if w.raised then .saveError else .res (.ret v))
        else (c', .res (.ret v))) := by
-  have h := translated_persist_event_success_is_model f c.store b' ready
+  have h := translated_persist_event_success_is_model f c.store b' ready false
+  simp only [Bool.not_false, Bool.true_and] at h
   unfold resave
   simp only [hb', h]
   cases hc : (b'.persistent && b'.sync && b'.dyn.inited)
@@ -1069,7 +1228,7 @@ theorem translated_persist_event_is_circ_event (c c' : Circ) (cal : Val → Opti
     (h : c.event cal i ev = some (c', r)) (hb : c.blocks[i]? = some b) (hb' : c'.blocks[i]? = some b')
     (hin : b'.dyn.inited = true) :
     runEvent {} b' (eventActs (match r with | .ret _ => false | _ => true) b.persistent c'.ready b.sync
-      b'.dyn.inited false) ⟨b.persistent, c.store, false⟩ = ⟨b'.persistent, c'.store, false⟩ := by
+      b'.dyn.inited false false) ⟨b.persistent, c.store, false⟩ = ⟨b'.persistent, c'.store, false⟩ := by
   have hlen : i < c.blocks.length := (List.getElem?_eq_some_iff.mp hb).1
   unfold Circ.event at h
   split at h
@@ -1084,16 +1243,16 @@ theorem translated_persist_event_is_circ_event (c c' : Circ) (cal : Val → Opti
       obtain ⟨rfl, rfl⟩ := h
       simp only [List.getElem?_set, hlen, if_true, Option.some.injEq] at hb'
       subst hb'
-      have h1 := fun rd => (translated_persist_event_success_without_faults c.store { b with dyn := d } rd).1
+      have h1 := fun rd => (translated_persist_event_success_without_faults c.store { b with dyn := d } rd false).1
       simp only at h1 hin
       rw [h1]
-      simp only [syncSave, hin, Bool.and_true]
+      simp only [syncSaveN, syncSave, hin, Bool.and_true, Bool.false_eq_true, if_false]
     | handlerError =>
       simp only [Option.some.injEq, Prod.mk.injEq] at h
       obtain ⟨rfl, rfl⟩ := h
       simp only [List.getElem?_set, hlen, if_true, Option.some.injEq] at hb'
       subst hb'
-      rw [(translated_persist_event_failure_is_model {} c.store _ b.persistent _ b.sync _ false).1]
+      rw [(translated_persist_event_failure_is_model {} c.store _ b.persistent _ b.sync _ false false).1]
       simp only [Circ.ready]
       cases hp : c.phase <;> simp
     | paramError =>
@@ -1101,14 +1260,14 @@ theorem translated_persist_event_is_circ_event (c c' : Circ) (cal : Val → Opti
       obtain ⟨rfl, rfl⟩ := h
       simp only [List.getElem?_set, hlen, if_true, Option.some.injEq] at hb'
       subst hb'
-      rw [(translated_persist_event_failure_is_model {} c.store _ b.persistent _ b.sync _ false).1]
+      rw [(translated_persist_event_failure_is_model {} c.store _ b.persistent _ b.sync _ false false).1]
       rfl
     | unknown =>
       simp only [Option.some.injEq, Prod.mk.injEq] at h
       obtain ⟨rfl, rfl⟩ := h
       simp only [List.getElem?_set, hlen, if_true, Option.some.injEq] at hb'
       subst hb'
-      rw [(translated_persist_event_failure_is_model {} c.store _ b.persistent _ b.sync _ false).1]
+      rw [(translated_persist_event_failure_is_model {} c.store _ b.persistent _ b.sync _ false false).1]
       rfl
 
 /-- the read of the stop time on a storage with faults -/
@@ -1358,10 +1517,10 @@ theorem translated_persist_init_refusal_comes_first (key : String) (p sy e : Val
     `save_persistent_state` nor by the event wrapper, on any storage -/
 theorem translated_persist_not_persistent_never_writes (key : String) (p sy e : Val) (a : PersistAttrs)
     (h : persistInit TimeUnits.timePeriod (.ok ()) key p sy e = .ok a) (hp : p.truthy = false)
-    (f : Faults) (b : Blk) (st : Option Entry) (g w r sr ready ini : Bool) (s : Storage) :
+    (f : Faults) (b : Blk) (st : Option Entry) (g w r sr ready ini nested : Bool) (s : Storage) :
     a.persistent = false ∧
     runSave key st (saveActs a.persistent g w r) (s, false) = (s, false) ∧
-    (runEvent f b (eventActs false a.persistent ready a.sync_state ini sr) ⟨a.persistent, s, false⟩).store = s := by
+    (runEvent f b (eventActs false a.persistent ready a.sync_state ini sr nested) ⟨a.persistent, s, false⟩).store = s := by
   have ha : a.persistent = false := by
     unfold persistInit at h
     cases ht : TimeUnits.timePeriod e with
